@@ -15,7 +15,7 @@ accepted non-empty write the tested variable is rewritten with pattern A (or, wh
 count, the file is re-created and re-filled) and a fresh baseline snapshot is taken.  So a rejected request costs
 one snapshot, an accepted write two.
 """
-import os, sys, itertools, shutil, collections, math
+import os, sys, itertools, shutil, collections, tempfile
 sys.path.insert(0, os.path.dirname(os.path.dirname(os.path.abspath(__file__))))
 import numpy as np
 from hypothesis import strategies as st
@@ -165,7 +165,7 @@ class Plan:
     pass
 
 
-def build(base, reqs, group_size=1):
+def build(base, reqs, group_size=1, scratch=""):
     """base: fmt, strict, rec, lens, xt, coll, ds ; reqs: list of request dicts.  -> Plan (script + oracle data).
     Requests without a predicted effect on the file (rejected, zero-length, reads) share one snapshot per
     `group_size` consecutive requests; every predicted non-empty write has its own before/after snapshots."""
@@ -229,13 +229,15 @@ def build(base, reqs, group_size=1):
     bpat = np.repeat(np.array([bbyte(p) for p in range(nput)], dtype=np.uint8), xsz)
     emit("buf b=b0 size=%d hex=%s" % (len(bpat), bpat.tobytes().hex()))
     emit("buf b=b1 size=%d fill=%d" % (nget * xsz, GETFILL))
-    path = hx("t.nc")
+    pathno = [0]
     fill_lines = ["data api=put form=vara coll=%d mt=%s f=f0 v=%d start=%s count=%s buf=b%d" % (
         coll, M.XT_NATIVE_MT[vxt], i, _l([0] * len(shp)), _l(shp), 10 + i) for i, vxt, shp in fills]
     tfill = [fl for fl, f in zip(fill_lines, fills) if f[0] == tv]
 
     def setup():
-        must("create f=f0 path=%s mode=%d%s" % (path, FMT_MODE[base["fmt"]], "" if ds else " info=i1"), "create")
+        # every incarnation gets a fresh file name (clobbering an existing file costs an unlink on the slow path)
+        pathno[0] += 1
+        must("create f=f0 path=%s mode=%d%s" % (hx("%st%d.nc" % (scratch, pathno[0])), FMT_MODE[base["fmt"]], "" if ds else " info=i1"), "create")
         for name, l in dims:
             must("def_dim f=f0 name=%s len=%d" % (hx(name), l), "def_dim")
         for name, vxt, dd in vs:
@@ -259,7 +261,7 @@ def build(base, reqs, group_size=1):
     def snap():
         name = "s%d" % nsnap[0]
         nsnap[0] += 1
-        must("snapshot path=%s to=%s" % (path, name), "snapshot")
+        must("snapshot path=%s to=%s%s" % (hx("%st%d.nc" % (scratch, pathno[0])), scratch, name), "snapshot")
         return name
 
     setup()
@@ -427,7 +429,6 @@ def evaluate(pl, res, d, stats):
         e = res.get(it["n"])
         rc = None if e is None else e.get("rc")
         stats["tuples"] += 1
-        stats["api_%s_%s" % (rq["api"], form)] += 1
         if form != "varn":
             for c in AC.boundary_classes(lens, rq.get("start"), rq.get("count") if form != "var1" else None,
                                          rq.get("stride") if form in ("vars", "varm") else None):
@@ -437,8 +438,7 @@ def evaluate(pl, res, d, stats):
         if v.accepted:
             stats["pred_accept_zero" if v.nelems == 0 else ("pred_accept_read" if it["read"] else "pred_accept_write")] += 1
         else:
-            for c in v.allowed:
-                stats["pred_rc_%d" % c] += 1
+            stats[v.allowed] += 1
         if rc not in v.allowed:
             probs.append(_prob(base, "rc", "%s returned %s, documented: %s (%s)" % (describe(base, rq), rc, sorted(v.allowed), v.why),
                                k, rq, rc=rc, expect=sorted(v.allowed)))
@@ -530,10 +530,24 @@ def evaluate(pl, res, d, stats):
     return probs, nt
 
 
+# scratch space for the data file and its snapshots: tmpfs when there is one (file creation on the ext4 /tmp of the pool
+# costs 4x more), otherwise the per-script directory of the pool
+SCRATCH_ROOT = "/dev/shm" if (os.path.isdir("/dev/shm") and os.access("/dev/shm", os.W_OK)) else None
+
+
 def run_requests(ctx, base, reqs, stats, group_size=1):
-    pl = build(base, reqs, group_size)
     pool = ctx.pool("asan", nprocs=1)
-    res, d = pool.run(pl.s, keepdir=True)
+    if SCRATCH_ROOT is None:
+        pl = build(base, reqs, group_size)
+        res, d = pool.run(pl.s, keepdir=True)
+    else:
+        d = tempfile.mkdtemp(prefix="pncv15.%d." % os.getpid(), dir=SCRATCH_ROOT)
+        try:
+            pl = build(base, reqs, group_size, d + "/")
+            res, _ = pool.run(pl.s, keepdir=False)
+        except BaseException:
+            shutil.rmtree(d, ignore_errors=True)
+            raise
     try:
         return evaluate(pl, res, d, stats)
     finally:
@@ -549,9 +563,11 @@ def dim_tuples(L, with_stride):
 
 
 def context(L, small=False):
-    c = [(0, L, 1), (L, 0, 1), (0, L + 1, 1)] if small else \
-        [(0, L, 1), (L - 1, 1, 1), (L, 0, 1), (0, 0, 1), (L + 1, 1, 1), (L, 1, 1), (0, L + 1, 1), (0, -1, 1), (0, 1, 0), (0, 2, L)]
-    return c
+    """context tuples (start, count, stride) for the dimensions that are not enumerated in the 'cross' domains: full extent,
+    zero count at the boundary, start beyond, edge violation, negative count, bad stride"""
+    if small:
+        return [(0, L, 1), (L, 0, 1), (0, L + 1, 1)]
+    return [(0, L, 1), (L, 0, 1), (L + 1, 1, 1), (0, L + 1, 1), (0, -1, 1), (0, 1, 0)]
 
 
 def boxes(lens, form, dom):
@@ -691,6 +707,7 @@ def enum_requests(case):
                 return None
         return out
 
+    bi = -1
     for (s, c, _sd) in boxes(lens, "vara", dom):
         if s is None or c is None:
             continue
@@ -698,14 +715,17 @@ def enum_requests(case):
         ti += 1
         if want(ti):
             yield wrap(ti, {"num": 1, "starts": [list(s)], "counts": [list(c)]})
-        # the tuple at position ti%3 of three sub-requests
+        # every third tuple also at position 0, 1 or 2 of three sub-requests
+        bi += 1
+        if bi % 3:
+            continue
         ti += 1
         if want(ti):
             f = fillers(s, c, 2)
             if f is None:
                 yield wrap(ti, {"num": 1, "starts": [list(s)], "counts": [list(c)]})
             else:
-                p = ti % 3
+                p = (bi // 3) % 3
                 subs = [f[0], f[1]]
                 subs.insert(p, (list(s), list(c)))
                 yield wrap(ti, {"num": 3, "starts": [list(x[0]) for x in subs], "counts": [list(x[1]) for x in subs]})
@@ -741,10 +761,17 @@ def enum_requests(case):
             yield wrap(ti, dict(sp))
 
 
+_count_cache = {}
+
+
 def count_enum(lens, form, dom):
-    if form != "varn":
-        return count_boxes(lens, form, dom)
-    return 2 * count_boxes(lens, "vara", dom) + count_boxes(lens, "var1", dom) + 50
+    key = (tuple(lens), form, dom)
+    if key not in _count_cache:
+        if form != "varn":
+            _count_cache[key] = count_boxes(lens, form, dom)
+        else:
+            _count_cache[key] = (4 * count_boxes(lens, "vara", dom)) // 3 + count_boxes(lens, "var1", dom) + 50
+    return _count_cache[key]
 
 
 def shapes(nd):
@@ -757,16 +784,20 @@ def shapes(nd):
     return out
 
 
+def enum_plan(tier):
+    """(ndims, domain, forms, k): the batches of every k-th (shape, api, format, mode) combination are enumerated"""
+    if tier == "thorough":
+        return [(1, "full", FORMS, 1), (2, "full", FORMS, 1), (3, "full", ["var1", "vara"], 1),
+                (3, "cross", ["vars"], 1), (3, "cross", ["varm", "varn"], 2)]
+    return [(1, "full", FORMS, 1), (2, "full", ["var1", "vara", "varn"], 1), (2, "cross", ["vars"], 1), (2, "cross", ["varm"], 2),
+            (3, "cross3", ["vara"], 6), (3, "cross3", ["vars"], 10)]
+
+
 def enumerate_cases(tier):
     """the complete list of enumerated batches of a tier, in a fixed order"""
     cases = []
-    plan = [(1, "full", FORMS)]
-    if tier == "thorough":
-        plan += [(2, "full", FORMS), (3, "full", ["var1", "vara"]), (3, "cross", ["vars", "varm", "varn"])]
-    else:
-        plan += [(2, "full", ["var1", "vara", "varn"]), (2, "cross", ["vars", "varm"]), (3, "cross3", ["vara", "vars", "varn"])]
     ctr = 0
-    for nd, dom, forms in plan:
+    for nd, dom, forms, keep in enum_plan(tier):
         for si, (rec, lens) in enumerate(shapes(nd)):
             for form in forms:
                 total = count_enum(lens, form, dom)
@@ -774,15 +805,16 @@ def enumerate_cases(tier):
                 for fmt in (1, 2, 5):
                     for strict in (False, True):
                         for ai, api in enumerate(APIS):
-                            if nd == 3 and tier != "thorough" and (si + ai + fmt) % 3 != 0:
-                                continue        # 3 dimensions are sampled in the quick tier
-                            ctr += 1
+                            if (si * 7 + ai * 3 + fmt + (5 if strict else 0)) % keep:
+                                continue
                             xts = XT_BY_FMT[fmt]
-                            for j in range(m):
-                                cases.append({"kind": "enum", "fmt": fmt, "strict": strict, "rec": rec, "lens": lens, "api": api,
-                                              "form": form, "dom": dom, "coll": (ctr + j) % 2, "xt": xts[(ctr * 5 + j) % len(xts)],
-                                              "flex": 1 if (ctr + j) % 3 == 0 else 0, "ds": 1 if (ctr + j) % 4 == 0 else 0,
-                                              "part": [j, m]})
+                            for coll in ((0, 1) if nd == 1 else (None,)):
+                                ctr += 1
+                                for j in range(m):
+                                    cases.append({"kind": "enum", "fmt": fmt, "strict": strict, "rec": rec, "lens": lens, "api": api,
+                                                  "form": form, "dom": dom, "coll": (ctr + j) % 2 if coll is None else coll,
+                                                  "xt": xts[(ctr * 5 + j) % len(xts)], "flex": 1 if (ctr + j) % 3 == 0 else 0,
+                                                  "ds": 1 if (ctr + j) % 4 == 0 else 0, "part": [j, m]})
     return cases
 
 
@@ -917,6 +949,8 @@ def run_case(ctx, case):
     label = "rand" if case.get("kind") == "rand" else "enum"
     gs = 1 if (label == "rand" or case.get("only") is not None) else GROUP
     probs, nt = run_requests(ctx, base, reqs, stats, gs)
+    for r in reqs:
+        stats["api_%s_%s" % (r["api"], r["form"])] += 1
     stats["%s_batches_done" % label] += 1
     stats["%s_fmt%d" % (label, base["fmt"])] += 1
     stats["%s_%s" % (label, "strict" if base["strict"] else "relaxed")] += 1
@@ -933,6 +967,8 @@ def run_case(ctx, case):
         nt = nt or any(r.get("flex") and r["flex"].get("bt") is not None for r in reqs)
     else:
         ctx.evaluations += len(reqs)
+    for k in [k for k in stats if isinstance(k, frozenset)]:
+        stats["pred_rc_" + "|".join(str(c) for c in sorted(k, reverse=True))] += stats.pop(k)
     ctx.stats.update(stats)
     if nt:
         ctx.nontrivial(runner.case_hash(case))
@@ -1037,12 +1073,13 @@ def coverage_extra(stats, tier):
             "random_cases": stats.get("rand_batches_done", 0),
             "boundary_tuples": {k: v for k, v in stats.items() if k.startswith("b_")},
             "accepted_writes_adjacent_to_other_variable": stats.get("accepted_write_adjacent_to_other_variable", 0),
-            "enumerated_domain": "1-D: full product; 2-D: " + ("full product; 3-D: full product for var1/vara, one full dimension x 10-tuple context "
-                                 "in the others for vars/varm/varn" if tier == "thorough" else
-                                 "full product for var1/vara/varn, one full dimension x 10-tuple context in the other for vars/varm; "
-                                 "3-D: sampled (one full dimension x 3-tuple context, one third of the api/format combinations)") +
-                                 "; data mode (collective/independent), external type and typed/flexible(NC_COUNT_IGNORE) are assigned "
-                                 "round-robin over the batches, imap variant round-robin over the tuples"}
+            "enumerated_domain": {"plan (ndims, domain, forms, every k-th (shape,api,format,mode) combination)": enum_plan(tier),
+                                  "domains": "full = full cross product of the per-dimension tuples (start,count in [-1,len+1], stride in {-1,0,1,2,len+1} "
+                                             "or absent) plus NULL start/count; cross = every dimension in turn takes all its tuples while the "
+                                             "others take the 6 context tuples (full, zero count at boundary, start beyond, edge, negative "
+                                             "count, zero stride); cross3 = same with 3 context tuples",
+                                  "round_robin": "data mode (collective/independent; both for 1-D), external type, typed vs flexible(NC_COUNT_IGNORE), "
+                                                 "romio_ds_write hint over the batches; imap variant and varn position over the tuples"}}
 
 
 if __name__ == "__main__":
